@@ -1,3 +1,4 @@
+import Proofs.Ext
 import Proofs.Graded
 import Model.Table
 import Proofs.Storage
@@ -95,5 +96,25 @@ theorem graded_table_contraction_is_mmul (n : Nat) (sig : Nat → Int) (σ : Equ
 /-- non-vacuity: a homogeneous grade-1 element exists in every dimension ≥ 1 and the predicates fire -/
 example : omtCheck 3 1 2 = true ∧ imtCheck 1 1 2 = true ∧ lcmtCheck 1 1 2 = true ∧ lcmtCheck 1 2 1 = false
     ∧ imtCheck 2 0 2 = false := by decide
+
+
+/-! ### the canonical definition of the outer product: the exterior algebra
+
+The coded outer product does not depend on the signature: it is the geometric product of the zero-signature model, and that model is
+(C01) isomorphic to Mathlib's Clifford algebra of the zero quadratic form on `R^n` — which is how Mathlib *defines* the exterior algebra
+`ExteriorAlgebra R (Fin n → R)` (`Cl.Q_zero : Q n 0 = 0`). So `^` is the exterior product. -/
+section Exterior
+variable {R : Type} [CommRing R] {n : Nat}
+
+theorem outer_is_zero_signature_product (A B : CMV n R) : wedge n A B = gmul n (fun _ => (0 : R)) A B := wedge_eq_gmul_zero A B
+
+theorem zero_signature_form_is_zero : Cl.Q n (fun _ => (0 : R)) = 0 := Cl.Q_zero
+
+theorem outer_is_exterior_product (x y : CliffordAlgebra (Cl.Q n (fun _ => (0 : R)))) :
+    (Cl.fromMathlib (x * y) : Cl n (fun _ => (0 : R)))
+      = wedge n (Cl.fromMathlib x : Cl n (fun _ => (0 : R))) (Cl.fromMathlib y : Cl n (fun _ => (0 : R))) :=
+  Cl.wedge_is_exterior_product x y
+
+end Exterior
 
 end C02
